@@ -113,11 +113,18 @@ def rowEnv (row : Cells) (nrows : Nat) : Env :=
   { val := fun n => lookup n.toList row
     len := fun n => if n = "entities_sheet" then nrows else 0 }
 
-/-- `get_validated_dataset_name(entity_row)`: `entity[EC.DATASET]` raises KeyError when the column is absent -/
+/-- calls inside `get_validated_dataset_name`: `entity[EC.DATASET]` (translated as `getitem:dataset`) raises
+    KeyError when the column is absent; the repaired source uses `.get` and has no such call -/
+def datasetCall (row : Cells) (f : String) : Except Rej Unit :=
+  if f = "getitem:dataset" then
+    (match lookup "dataset".toList row with
+     | none => .error (.internal "KeyError: dataset")
+     | some _ => .ok ())
+  else .error (.unsupported f)
+
+/-- `get_validated_dataset_name(entity_row)` -/
 def validatedDatasetName (row : Cells) : Except Rej Unit :=
-  match lookup "dataset".toList row with
-  | none => .error (.internal "KeyError: dataset")
-  | some _ => runBody (rowEnv row 1) noCall Gen.datasetNameBody
+  runBody (rowEnv row 1) (datasetCall row) Gen.datasetNameBody
 
 def declCall (row : Cells) (f : String) : Except Rej Unit :=
   if f = "validate_entities_columns" then
@@ -323,21 +330,58 @@ structure Out where
   xmlns : Option (Str × Str)
 deriving Repr, DecidableEq
 
-/-- `Survey.get_nsmap`: `" entities=uri"` → `(entities, uri)` (split on the first `=`) -/
-def nsDecl : Str × Str :=
-  let s := lstrip Gen.entitiesNsDecl.toList
-  (s.takeWhile (· ≠ '='), (s.dropWhile (· ≠ '=')).drop 1)
+/-! ### `Survey.get_nsmap` (survey.py 318-342) -/
+
+/-- `v.replace('"', "").replace("'", "")` -/
+def stripQuotes (v : Str) : Str := v.filter fun c => c != '"' && c != '\''
+
+/-- `[ns.split("=") for ns in s.split() if len(ns.split("=")) == 2 and ns.split("=")[0] != ""]` -/
+def nsToken (tok : Str) : Option (Str × Str) :=
+  match splitOnChar '=' tok with
+  | [k, v] => if k.isEmpty then none else some (k, v)
+  | _ => none
+
+def nsTokens (s : Str) : List (Str × Str) := (splitWs s).filterMap nsToken
+
+/-- Python `d[k] = v` on an insertion-ordered dict with `Str` keys -/
+def dictSetS (d : List (Str × Str)) (k v : Str) : List (Str × Str) :=
+  if d.any (fun p => p.1 = k) then d.map (fun p => if p.1 = k then (k, v) else p) else d ++ [(k, v)]
+
+/-- `f"xmlns:{k}" in NSMAP` -/
+def inBaseNs (k : Str) : Bool := Gen.nsmap.any fun p => p.1.toList = "xmlns:".toList ++ k
+
+def nsStep (d : List (Str × Str)) (kv : Str × Str) : List (Str × Str) :=
+  if inBaseNs kv.1 then d else dictSetS d kv.1 (stripQuotes kv.2)
+
+/-- the string `get_nsmap` splits: the settings value, with the entities declaration appended when
+    `entity_features` is set -/
+def nsString (namespaces : Option Str) (features : Bool) : Str :=
+  if features then
+    (match namespaces with
+     | none => Gen.entitiesNsDecl.toList
+     | some n => n ++ Gen.entitiesNsDecl.toList)
+  else namespaces.getD []
+
+/-- the `(prefix, uri)` declarations `get_nsmap` adds to `NSMAP`, in document order (a falsy string adds none,
+    as does the empty token list) -/
+def nsExtra (namespaces : Option Str) (features : Bool) : List (Str × Str) :=
+  (nsTokens (nsString namespaces features)).foldl nsStep []
+
+def entitiesPrefix : Str := "entities".toList
 
 def entityName : Str := ((Gen.entityDeclTop.lookup "name").getD "").toList
 
 /-- `workbook_to_json` + `Survey.xml`: entities sheet first, then the survey rows (rows numbered from 2),
-    then the declaration's nodes.  `entities` are the data rows of the entities sheet after header dealiasing. -/
-def convert (root : Str) (sub : Str → Str) (entities : List Cells) (survey : List Cells) : Except Rej Out :=
+    then the declaration's nodes.  `entities` are the data rows of the entities sheet after header dealiasing;
+    `namespaces` is the settings cell of that name. -/
+def convert (root : Str) (sub : Str → Str) (namespaces : Option Str) (entities : List Cells) (survey : List Cells) :
+    Except Rej Out :=
   match entities with
   | [] =>
     (match walk false root 2 [] survey with
      | .error e => .error e
-     | .ok sv => .ok { entity := none, nodes := [], saveto := sv, version := none, xmlns := none })
+     | .ok sv => .ok { entity := none, nodes := [], saveto := sv, version := none
+                       xmlns := (lookup entitiesPrefix (nsExtra namespaces false)).map fun u => (entitiesPrefix, u) })
   | row :: rest =>
     match getEntityDeclaration row rest with
     | .error e => .error e
@@ -348,9 +392,14 @@ def convert (root : Str) (sub : Str → Str) (entities : List Cells) (survey : L
         match bindings (Form.xpathStr [root, "meta".toList, entityName]) sub ps with
         | .error e => .error e
         | .ok ns =>
+          let feats := !Gen.entityFeatures.isEmpty
           .ok { entity := some (instanceNode ps), nodes := ns, saveto := sv
-                version := if Gen.entityFeatures.isEmpty then none else some (Gen.entitiesVersionAttr, Gen.entitiesOfflineVersion)
-                xmlns := if Gen.entityFeatures.isEmpty then none else some nsDecl }
+                version := if feats then some (Gen.entitiesVersionAttr, Gen.entitiesOfflineVersion) else none
+                xmlns := (lookup entitiesPrefix (nsExtra namespaces feats)).map fun u => (entitiesPrefix, u) }
+
+/-- the other namespace declarations on the root element (settings `namespaces`), for the correspondence run -/
+def customNs (namespaces : Option Str) (hasEntity : Bool) : List (Str × Str) :=
+  (nsExtra namespaces (hasEntity && !Gen.entityFeatures.isEmpty)).filter fun p => p.1 ≠ entitiesPrefix
 
 /-! ### the driver's substitution: `${name}` ↦ ` /root/…/name ` for a context outside every repeat -/
 
